@@ -103,8 +103,43 @@ func runEnum(c *core.Ctx) []core.Obligation {
 						}
 					}
 				}
-				if handled {
-					b.addP([]string{"C08"}, core.Discharged, key, c.FuncPos(fn), "has a case of its own")
+				// the case reads the value with the reader of that type: in the compact protocol an
+				// i64 is a varint and a double eight fixed bytes, a "both are 64 bits" merge loses
+				// framing
+				want := map[string]string{"TRUE": "ReadBool", "FALSE": "ReadBool", "BOOL": "ReadBool", "I8": "ReadInt8", "I16": "ReadInt16", "I32": "ReadInt32", "I64": "ReadInt64", "DOUBLE": "ReadFloat64", "BINARY": "skipBinary", "LIST": "skipList", "SET": "skipSet", "MAP": "skipMap", "STRUCT": "skipStruct"}[n]
+				wrong := ""
+				if handled && want != "" {
+					found := false
+					var got []string
+					for blk, set := range flow {
+						if set&(1<<uint(i)) == 0 || set&other != 0 || popcount(set) > 2 {
+							continue
+						}
+						for _, in := range blk.Instrs {
+							ci, ok := in.(ssa.CallInstruction)
+							if !ok {
+								continue
+							}
+							name := ""
+							if ci.Common().Method != nil {
+								name = ci.Common().Method.Name()
+							} else if f := staticCallee(ci.Common()); f != nil {
+								name = f.Name()
+							}
+							got = append(got, name)
+							if name == want {
+								found = true
+							}
+						}
+					}
+					if !found {
+						wrong = fmt.Sprintf("%v", got)
+					}
+				}
+				if wrong != "" {
+					b.addP([]string{"C08"}, core.Violation, key, c.FuncPos(fn), fmt.Sprintf("thrift.skip consumes a value of Type %s with %s instead of %s: the two have different encodings in the compact protocol (an i64 is a zig-zag varint, a double eight bytes), so skipping an undeclared field of that type loses the framing of everything after it", n, wrong, want))
+				} else if handled {
+					b.addP([]string{"C08"}, core.Discharged, key, c.FuncPos(fn), "has a case of its own, which reads with "+want)
 				} else {
 					b.addP([]string{"C08"}, core.Violation, key, c.FuncPos(fn), fmt.Sprintf("thrift.skip has no case for Type %s: a field of that type that the target does not declare cannot be skipped, and decoding fails (or loses framing) instead of ignoring it", n))
 				}
